@@ -102,8 +102,10 @@ var c05Specs = []numSpec{
 
 func ruleC05(c *Check, p *Prog) {
 	c.Explanation = "Decides for the spectral test: +-1 fill of a zero-initialised complex buffer of size ceilPow2(n) (least power of two >= max(n,2), R-EQUIV on ceilPow2), fft.New(N) with its error leading to panic and Transform applied to that fresh buffer, threshold sqrt(2.995732274 n), N0=0.95n/2, strict count over i<n/2-1 of |f_i|, divisor sqrt(0.95*0.05*n/3.8) with the sqrt2 folding, erfc pair. The transform itself is C19." + numNote(c) + "."
-	c.Floor("R-EQUIV", 2)
+	c.Floor("R-EQUIV", 9)
 	runNumSpecs(c, p, c05Specs)
+	// the transform the test relies on (shared with C19): size limits 2..2^27, plan construction, permutation, butterflies
+	runNumSpecs(c, p, c19Specs)
 	checkPreconds(c, p, "C05")
 	checkEntryPoints(c, p, "C05")
 }
